@@ -25,7 +25,7 @@ EXPLANATION = ("Kernel-checked Lean theorems show that, in the model, per-case k
                "where an API exists; every variant must give the value of the original at every label, and deep copies of all inputs "
                "are compared after each call. Scheduler independence, laziness and non-mutation are observed, not proved.")
 TRUSTED = ["dask / xarray / pandas runtime behaviour is observed on the enumerated variants only"]
-ASSUMPTIONS = ["transposed inputs are materialised in their new order (np.ascontiguousarray): a strided view with a size-1 dimension "
+ASSUMPTIONS = ["transposed inputs are materialised in their new order (ndarray.copy(order='C'), which also normalises the strides of size-1 dimensions): a strided view with a size-1 dimension "
                "triggers a bottleneck 1.6.0 + numpy 2.x nanmin/nanmax bug that is not part of nci/scores",
                "FSS is not given dask input (its dask support is documented as 'forbidden' by default and not fully tested)"]
 RULE = ("registry function x generated labelled case x variant {transposition, coordinate shuffle, chunking x scheduler, Dataset, pandas}; "
@@ -84,7 +84,7 @@ def transpose_variants(rng, arrs, w, limit):
             dims = list(a.dims)
             rng.shuffle(dims)
             t = a.transpose(*dims)
-            new[k] = t.copy(data=np.ascontiguousarray(t.values).reshape(t.shape))
+            new[k] = t.copy(data=t.values.copy(order="C"))
         out.append(("transpose", {k: v for k, v in new.items() if k != "__w"}, new.get("__w")))
     return out
 
@@ -297,7 +297,7 @@ def extras(ctx, n):
         dims = list(a.dims)
         rng.shuffle(dims)
         t = a.transpose(*dims)
-        t = t.copy(data=np.ascontiguousarray(t.values).reshape(t.shape))
+        t = t.copy(data=t.values.copy(order="C"))
         for d in dims:
             if rng.random() < 0.5 and d != "threshold" and d != "samp":
                 perm = list(range(t.sizes[d]))
